@@ -965,3 +965,78 @@ func localSliceElems(v ssa.Value) (elems []ssa.Value, known bool) {
 	walk(ia.X, 0)
 	return elems, known
 }
+
+// globalArrayStrings: the constant strings of a package-level array of strings that is filled in its package
+// initialiser and written nowhere else.
+func globalArrayStrings(c *km.Ctx, g *ssa.Global) ([]string, bool) {
+	at, ok := g.Type().(*types.Pointer).Elem().Underlying().(*types.Array)
+	if !ok || g.Pkg == nil {
+		return nil, false
+	}
+	initFn := g.Pkg.Func("init")
+	out := make([]string, at.Len())
+	set := make([]bool, at.Len())
+	good := true
+	for _, fn := range c.P.AllFuncs {
+		km.Instrs(fn, func(in ssa.Instruction) {
+			switch x := in.(type) {
+			case *ssa.IndexAddr:
+				if x.X != ssa.Value(g) {
+					return
+				}
+				for _, ref := range *x.Referrers() {
+					st, isSt := ref.(*ssa.Store)
+					if !isSt || st.Addr != ssa.Value(x) {
+						continue
+					}
+					i, isC := km.ConstInt(x.Index)
+					sv, isS := evalString(c, st.Val, 0)
+					if fn != initFn || !isC || !isS || i < 0 || i >= at.Len() || set[i] {
+						good = false
+						continue
+					}
+					out[i], set[i] = sv, true
+				}
+			case *ssa.Store:
+				if x.Addr != ssa.Value(g) {
+					return
+				}
+				// the whole array assigned once from a composite literal in the initialiser
+				u, isU := x.Val.(*ssa.UnOp)
+				lit, isA := (*ssa.Alloc)(nil), false
+				if isU && u.Op == token.MUL {
+					lit, isA = u.X.(*ssa.Alloc)
+				}
+				if fn != initFn || !isA {
+					good = false
+					return
+				}
+				for _, ref := range *lit.Referrers() {
+					ia, isIA := ref.(*ssa.IndexAddr)
+					if !isIA {
+						continue
+					}
+					for _, r2 := range *ia.Referrers() {
+						st, isSt := r2.(*ssa.Store)
+						if !isSt || st.Addr != ssa.Value(ia) {
+							continue
+						}
+						i, isC := km.ConstInt(ia.Index)
+						sv, isS := evalString(c, st.Val, 0)
+						if !isC || !isS || i < 0 || i >= at.Len() || set[i] {
+							good = false
+							continue
+						}
+						out[i], set[i] = sv, true
+					}
+				}
+			}
+		})
+	}
+	for _, b := range set {
+		if !b {
+			good = false
+		}
+	}
+	return out, good
+}
